@@ -51,6 +51,18 @@ def kinds(b):
         K.append(Kind("fxp.assert_%s(x,secret int)" % nm, 2,
                       (lambda n: lambda ns, ops, prm: getattr(ns.fx.LinCombFxp(ops[0], False), "assert_" + n)(ops[1]))(nm),
                       (lambda r: lambda v, prm: r(v[0], v[1] * (1 << env.bind().fx.resolution)))(rel)))
+    for nm, rel in cmpops:
+        # integer assertion whose second operand is a fixed-point value (representation v[1], number v[1] / 2^r): either
+        # refused (today: "Wrong type for LinComb") or the relation between the two NUMBERS - never between x and v[1]
+        K.append(Kind("assert_%s(x,secret fxp)" % nm, 2,
+                      (lambda n: lambda ns, ops, prm: getattr(ops[0], "assert_" + n)(ns.fx.LinCombFxp(ops[1], False)))(nm),
+                      (lambda r: lambda v, prm: r(v[0] * (1 << env.bind().fx.resolution), v[1]))(rel)))
+    K.append(Kind("assert_range(x,fxp bounds)", 2,
+                  lambda ns, ops, prm: ops[0].assert_range(ns.fx.LinCombFxp(ops[1], False), ns.fx.LinCombFxp(ops[1] + 2 * (1 << ns.fx.resolution), False)),
+                  lambda v, prm: v[1] <= v[0] * (1 << env.bind().fx.resolution) < v[1] + 2 * (1 << env.bind().fx.resolution)))
+    K.append(Kind("Array.assert_eq(int,fxp)", 2,
+                  lambda ns, ops, prm: ns.ar.Array([ops[0]]).assert_eq(ns.ar.Array([ns.fx.LinCombFxp(ops[1], False)])),
+                  lambda v, prm: v[0] * (1 << env.bind().fx.resolution) == v[1]))
     K.append(Kind("Array.assert_eq", 2,
                   lambda ns, ops, prm: ns.ar.Array([ops[0], ops[1]]).assert_eq(ns.ar.Array([ns.rt.LinComb.ONE_SAFE * 1, ops[0]])),
                   lambda v, prm: v[0] == 1 and v[1] == v[0]))
